@@ -13,22 +13,31 @@ TARGETS = [  # (snippet, must_reject)
     ("cg = 5", True), ("mg = 5", False), ("cl = 5", True), ("ml = 5", False), ("p = 5", True), ("cb = 5", True),
     ("ml += 1", False), ("cl += 1", True), ("cg -= 1", True), ("p *= 2", True), ("cb /= 2", True), ("ib = 3", True), ("cf = cf", True),
     ("oc = 2", True), ("ocz = 2", True),
+] + [  # every assignment operator on every kind of target (float-typed, so that `/=` is type-correct and only constness decides)
+    ("%s %s 2.0" % (t, op), rej) for t, rej in (("cgf", True), ("clf", True), ("pf", True), ("ibf", True), ("mgf", False), ("mlf", False)) for op in ("=", "+=", "-=", "*=", "/=")
 ]
 T_ASSIGN = '''
 from other use (oc, oc as ocz)
 cg :: 1
 mg := 1
+cgf :: 1.5
+mgf := 1.5
 cf :: fn do end
 En :: enum
     A int,
+    F float,
 end
-f :: fn p: int do
+f :: fn p: int, pf: float do
     cl :: 2
     ml := 2
+    clf :: 2.5
+    mlf := 2.5
     if 1 < 2 do
         ib :: 3
+        ibf :: 3.5
         case En.A 1 do
             A cb ->
+                pr(cb)
                 __alt1(%s)
             end
             else pr(1) end
@@ -36,7 +45,7 @@ f :: fn p: int do
     end
 end
 start :: fn do
-    f(1)
+    f(1, 1.5)
 end
 ''' % ", ".join("fn do %s end" % s for s, _ in TARGETS)
 
